@@ -1,6 +1,6 @@
 (* C11 - Exhaustive search evaluates each reveal set once, correctly; finds the optimum.
    Statements only; proofs in theories/SearchProofs.v (and CombsProofs.v for itertools.combinations). *)
-From ICG Require Import Prelude Bits Table Bounds GameOps SAKnowledge Shapley Exploit Norms Env Combs CombsProofs Search SearchProofs.
+From ICG Require Import Prelude Bits Table Bounds GameOps SAKnowledge Shapley Exploit Norms Env Combs CombsProofs Search SearchProofs SASound SAMSpec SearchMono.
 
 (* the enumeration: every set of at most m still-unknown coalitions exactly once, by increasing size *)
 Theorem C11_sequences :
@@ -62,6 +62,27 @@ Theorem C11_best_states_min :
     end.
 Proof. exact sr_best_states_min. Qed.
 Print Assumptions C11_best_states_min.
+
+(* for games of the assumed class the reported gap never increases when one more coalition is added to the set, so the
+   per-size optimum (best-states curve) is non-increasing: any optimal k-set extended by a further coalition is a
+   (k+1)-set that is at least as good *)
+Theorem C11_value_monotone_sa :
+  forall (c : computer) g n t v known seq a x x',
+    (c = CRef \/ c = CCached) -> SA n (ev_val v) -> ev_val v 0%N == 0 ->
+    MinK n (fun s => ev_mem s (seq ++ known)) ->
+    sr_value c g n t v known seq = Some x -> sr_value c g n t v known (seq ++ [a]) = Some x' -> x' <= x.
+Proof. exact sr_value_monotone_sa. Qed.
+Print Assumptions C11_value_monotone_sa.
+Theorem C11_value_monotone_sam :
+  forall r g n t v known seq a x x',
+    SA n (ev_val v) -> Mono n (ev_val v) -> ev_val v 0%N == 0 ->
+    MinK n (fun s => ev_mem s (seq ++ known)) ->
+    sr_value (CSam r) g n t v known seq = Some x -> sr_value (CSam r) g n t v known (seq ++ [a]) = Some x' -> x' <= x.
+Proof. exact sr_value_monotone_sam. Qed.
+Print Assumptions C11_value_monotone_sam.
+Theorem C11_mean_monotone : forall c1 c2, Forall2 Qle c1 c2 -> sr_mean c1 <= sr_mean c2.
+Proof. exact sr_mean_le. Qed.
+Print Assumptions C11_mean_monotone.
 
 Example C11_nontrivial :
   let v := [0; 1; 1; 3; 1; 2; 4; 9] in
